@@ -270,7 +270,8 @@ def run_case(case, tier):
                 except Exception as e:
                     V.append({"mech": "message_copy_raises", "detail": f"Message.copy({cls.__name__}): {type(e).__name__}: {str(e)[:160]}"})
                 # version refusal
-                for ver, must in ((0, "accept"), (cls.type_hash, "accept"), ((cls.type_hash ^ 0x1) or 2, "refuse"), ((cls.type_hash + 0x10000) & 0xFFFFFFFF or 3, "refuse")):
+                for ver, must in ((0, "accept"), (cls.type_hash, "accept"), ((cls.type_hash ^ 0x1) or 2, "refuse"), ((cls.type_hash + 0x10000) & 0xFFFFFFFF or 3, "refuse"),
+                                  (cls.type_id or 7, "refuse"), (ctypes.sizeof(cls) or 9, "refuse"), (0xFFFFFFFF, "refuse")):
                     bump("version_checks")
                     h.version = ver
                     s = Message(h, m).to_json(minify=True)
